@@ -125,6 +125,45 @@ def variants(src, qual, max_swaps):
             ast.fix_missing_locations(t3))
 
 
+MIRROR = {ast.Lt: ast.Gt, ast.Gt: ast.Lt, ast.LtE: ast.GtE, ast.GtE: ast.LtE,
+          ast.Eq: ast.Eq, ast.NotEq: ast.NotEq}
+
+
+def variants2(src, qual, max_each):
+    """(c) mirrored comparisons, (e) inverted if/else."""
+    tree = ast.parse(src)
+    fn = find(tree, qual)
+    if fn is None:
+        return
+    cmps = [n for n in ast.walk(fn) if isinstance(n, ast.Compare)
+            and len(n.ops) == 1 and type(n.ops[0]) in MIRROR]
+    step = max(1, len(cmps) // max_each) if max_each else 1
+    for idx in range(0, len(cmps), step):
+        t3 = copy.deepcopy(tree)
+        f3 = find(t3, qual)
+        c3 = [n for n in ast.walk(f3) if isinstance(n, ast.Compare)
+              and len(n.ops) == 1 and type(n.ops[0]) in MIRROR]
+        n = c3[idx]
+        n.left, n.comparators[0] = n.comparators[0], n.left
+        n.ops[0] = MIRROR[type(n.ops[0])]()
+        yield 'mirror%d@%d' % (idx, n.lineno), ast.unparse(
+            ast.fix_missing_locations(t3))
+    ifs = [n for n in ast.walk(fn) if isinstance(n, ast.If) and n.orelse
+           and not (len(n.orelse) == 1 and isinstance(n.orelse[0], ast.If))]
+    step = max(1, len(ifs) // max_each) if max_each else 1
+    for idx in range(0, len(ifs), step):
+        t3 = copy.deepcopy(tree)
+        f3 = find(t3, qual)
+        i3 = [n for n in ast.walk(f3) if isinstance(n, ast.If) and n.orelse
+              and not (len(n.orelse) == 1 and isinstance(n.orelse[0],
+                                                         ast.If))]
+        n = i3[idx]
+        n.test = ast.UnaryOp(op=ast.Not(), operand=n.test)
+        n.body, n.orelse = n.orelse, n.body
+        yield 'invert%d@%d' % (idx, n.lineno), ast.unparse(
+            ast.fix_missing_locations(t3))
+
+
 def run_variant(job):
     name, file, text_, props, base = job
     root = os.path.join(base, name.replace('/', '_'))
@@ -161,9 +200,12 @@ def main():
         if k and k not in qual and k not in file:
             continue
         src = open(os.path.join('/repo', file)).read()
-        for tag, text_ in variants(src, qual, maxs):
-            jobs.append(('%s:%s:%s' % (file, qual, tag), file, text_, props,
-                         base))
+        gens = [variants2(src, qual, maxs)] if '--kind2' in a else [
+            variants(src, qual, maxs)]
+        for gen in gens:
+            for tag, text_ in gen:
+                jobs.append(('%s:%s:%s' % (file, qual, tag), file, text_,
+                             props, base))
     alarms = errs = runs = 0
     try:
         with ThreadPoolExecutor(j) as ex:
